@@ -33,12 +33,12 @@ def gen_cases(tier, seed):
            ([(0, 5)], [3]), ([(2, 4), (5, 9), (10, 20)], [1.0, 0.9, 0.0]), ([(0, 2), (3, 5)], [0, 100]), ([(0, 1), (2, 3)], [0, 7])]
     for r, c in pws:
         cases.append({"kind": "pw", "ranges": r, "consts": c})
-    n = 150 if tier == "quick" else 1200
+    n = 150 if tier == "quick" else 6000
     for i in range(n):
         cases.append({"kind": "bounds", "rs": f"C12b:{seed}:{i}"})
         cases.append({"kind": "objective", "rs": f"C12o:{seed}:{i}"})
         cases.append({"kind": "values", "rs": f"C12v:{seed}:{i}"})
-    h = 400 if tier == "quick" else 5000
+    h = 400 if tier == "quick" else 60000
     for i in range(h):
         cases.append({"kind": "history", "rs": f"C12h:{seed}:{i}", "n": 30})
     for i in range(n // 2):
